@@ -515,6 +515,19 @@ class Nodes(Family):
         a['nodes'] = a['nodes'][::-1]             # child node placed before its parent
         a['nodes'][1]['neg'] = ['n', 0]
         out.append(('child_before_parent', a))
+        # the list holds only the root; its children are reachable through child_neg / child_pos alone (the writer has to
+        # append them, as it does for every other referenced object)
+        w3 = self.base(layout, 3)
+        a = copy.deepcopy(w3)
+        a['extras'] = dict(a.get('extras', {}), nodes=[copy.deepcopy(w3['nodes'][1]), copy.deepcopy(w3['nodes'][2])])
+        a['nodes'] = [dict(copy.deepcopy(w3['nodes'][0]), neg=['n', ['x', 1]], pos=['n', ['x', 0]])]
+        a['check_prefix'] = True
+        out.append(('children_only_linked', a))
+        a = copy.deepcopy(w3)
+        a['extras'] = dict(a.get('extras', {}), nodes=[copy.deepcopy(w3['nodes'][2])])
+        a['nodes'] = [dict(copy.deepcopy(w3['nodes'][0]), neg=['n', ['x', 0]], pos=['n', 1]), copy.deepcopy(w3['nodes'][1])]
+        a['check_prefix'] = True
+        out.append(('one_child_only_linked', a))
         return out
 
 
@@ -854,6 +867,7 @@ def run_case(acc: core.Acc, case: dict) -> None:
     acc.evaluations += 1
     world = make_world(case)
     check = world.pop('check_override', fam.check)
+    check_prefix = world.pop('check_prefix', False)
     field = norm_path(case['devs'][0][0]) if case.get('devs') else case.get('tag', 'base')
     if fam.name == 'ents':
         field = ents_field(case)
@@ -921,7 +935,10 @@ def run_case(acc: core.Acc, case: dict) -> None:
     want, got = G.Deep(world), G.Deep(obs)
     diffs = []
     for name in check:
-        d = G.first_diff(want.view(name), got.view(name), name)
+        wv, gv = want.view(name), got.view(name)
+        if check_prefix and isinstance(wv, list) and isinstance(gv, list) and len(gv) > len(wv):
+            gv = gv[:len(wv)]     # referenced-only objects are appended by the writer; their content is compared through the links
+        d = G.first_diff(wv, gv, name)
         if d:
             diffs.append((name, d))
     if overflow:
